@@ -156,6 +156,19 @@ def getOptFn (j : Json) : D (PyVal → Option PyVal) := do
       | .list _ xs => some (.tuple 0 xs)
       | .set _ xs => some (.tuple 0 xs)
       | _ => none)
+  -- coercers whose result differs from their source in length / kind (container predicates must see the result)
+  | "tupleTail" =>
+    pure (fun x => match x with
+      | .tuple _ _ => some x
+      | .list _ xs => some (.tuple 0 xs.tail)
+      | .int i => some (.tuple 0 [.int i])
+      | _ => none)
+  | "listTail" =>
+    pure (fun x => match x with
+      | .list _ _ => some x
+      | .tuple _ xs => some (.list 0 xs.tail)
+      | .int i => some (.list 0 [.int i])
+      | _ => none)
   | "dictFromPairs" =>
     pure (fun x => match x with
       | .dict _ _ => some x
